@@ -140,9 +140,13 @@ func runMergeTrace(n int, steps []mergeStep) {
 	line := M{"op": "merge", "n": n, "steps": outs}
 	if stalled {
 		line["stalled"] = true
+		mergeStalls++
 	}
 	emit(line)
 }
+
+// traces of this run in which a step ran into its 10 s limit: after a few the sweep stops
+var mergeStalls int
 
 // ---- trace generator: respects causality (a child speaks about a request only after the client sent it)
 
@@ -339,7 +343,7 @@ func init() {
 		return propRunner{
 			gen: func(r *Rng, n int, tier string) {
 				g := &EvGen{r: r}
-				for i := 0; i < n; i++ {
+				for i := 0; i < n && mergeStalls < 4; i++ {
 					k, steps := genMergeTrace(r, g, dup)
 					runMergeTrace(k, steps)
 				}
